@@ -34,10 +34,12 @@ type Loaded struct {
 	globals   map[*ssa.Global]int
 	tags      map[string]int
 	tagTypes  []types.Type
+	tagByID   map[int]types.Type
 	funcIndex map[string]*ssa.Function // fnKey -> function (incl. closures)
 	// element types T for which a pointer to a slice element escapes (is stored, returned, merged ...)
 	elemPtrTypes map[string]bool
 	poolNew      map[*ssa.Global]*ssa.Function
+	poolFieldNew map[string]*ssa.Function
 }
 
 func loadRepo(repo string, patterns []string) (*Loaded, error) {
@@ -224,17 +226,44 @@ func (ld *Loaded) strConst(s string) *Term {
 	}
 	id, ok := ld.strIDs[s]
 	if !ok {
-		id = len(ld.strIDs) + 1
+		id = ld.stableID("str", s, func(n int) bool { _, used := ld.strByID[fmt.Sprint(-3000000-n)]; return used })
 		ld.strIDs[s] = id
 		ld.strByID[fmt.Sprint(-3000000-id)] = s
 	}
 	return IntC(int64(-3000000 - id))
 }
 
+// stableID: a number for a named thing that depends on its name only (not on the order in which things are first
+// met), so that the terms of an obligation are the same whichever other functions were processed before it
+// (proof hints are matched by term structure). Collisions are resolved by probing.
+func (ld *Loaded) stableID(kind, name string, used func(int) bool) int {
+	h := uint32(2166136261)
+	for _, c := range []byte(kind + ":" + name) {
+		h ^= uint32(c)
+		h *= 16777619
+	}
+	id := int(h%900000) + 1
+	for used(id) {
+		id = id%900000 + 1
+	}
+	return id
+}
+
 func (ld *Loaded) globalRef(g *ssa.Global) *Term {
 	id, ok := ld.globals[g]
 	if !ok {
-		id = len(ld.globals) + 1
+		name := g.Name()
+		if g.Pkg != nil {
+			name = g.Pkg.Pkg.Path() + "." + name
+		}
+		id = ld.stableID("global", name, func(n int) bool {
+			for _, v := range ld.globals {
+				if v == n {
+					return true
+				}
+			}
+			return false
+		})
 		ld.globals[g] = id
 	}
 	return IntC(int64(-2000000 - id))
@@ -272,8 +301,11 @@ func (ld *Loaded) typeTag(t types.Type) int {
 	k := typeKey(types.Unalias(t))
 	id, ok := ld.tags[k]
 	if !ok {
-		ld.tagTypes = append(ld.tagTypes, t)
-		id = len(ld.tagTypes)
+		if ld.tagByID == nil {
+			ld.tagByID = map[int]types.Type{}
+		}
+		id = ld.stableID("type", k, func(n int) bool { _, used := ld.tagByID[n]; return used })
+		ld.tagByID[id] = t
 		ld.tags[k] = id
 	}
 	return id
@@ -282,10 +314,11 @@ func (ld *Loaded) typeTag(t types.Type) int {
 func (ld *Loaded) tagType(tag *Term) types.Type {
 	var n int
 	fmt.Sscanf(tag.Name, "%d", &n)
-	if n <= 0 || n > len(ld.tagTypes) {
+	t, ok := ld.tagByID[n]
+	if !ok {
 		panic("unknown type tag " + tag.Name)
 	}
-	return ld.tagTypes[n-1]
+	return t
 }
 
 // exprTextAt returns the source text of the innermost interesting expression at pos.
@@ -409,4 +442,105 @@ func (ld *Loaded) poolNewFuncs() map[*ssa.Global]*ssa.Function {
 		}
 	}
 	return ld.poolNew
+}
+
+func isSyncPoolPtr(t types.Type) bool {
+	pt, ok := t.Underlying().(*types.Pointer)
+	if !ok {
+		return false
+	}
+	n, ok := types.Unalias(pt.Elem()).(*types.Named)
+	return ok && n.Obj().Pkg() != nil && n.Obj().Pkg().Path() == "sync" && n.Obj().Name() == "Pool"
+}
+
+// poolFieldNewFuncs: struct fields of type *sync.Pool that are only ever assigned a pool literal with one
+// capture-free New function (key: normKey(struct type) + "." + field name). Checked mechanically: every store to
+// the field anywhere in the loaded packages of the repository must be `&sync.Pool{New: <that function>}`;
+// a field with any other store (a pool without New, a pool passed in, two different New functions) is left out.
+func (ld *Loaded) poolFieldNewFuncs() map[string]*ssa.Function {
+	if ld.poolFieldNew != nil {
+		return ld.poolFieldNew
+	}
+	ld.poolFieldNew = map[string]*ssa.Function{}
+	bad := map[string]bool{}
+	var visit func(f *ssa.Function)
+	visit = func(f *ssa.Function) {
+		newOf := map[ssa.Value]*ssa.Function{}
+		hasNew := map[ssa.Value]bool{}
+		for _, b := range f.Blocks {
+			for _, ins := range b.Instrs {
+				st, ok := ins.(*ssa.Store)
+				if !ok {
+					continue
+				}
+				fa, ok := st.Addr.(*ssa.FieldAddr)
+				if !ok {
+					continue
+				}
+				pt, ok := fa.X.Type().Underlying().(*types.Pointer)
+				if !ok {
+					continue
+				}
+				stt, ok := pt.Elem().Underlying().(*types.Struct)
+				if !ok || fa.Field >= stt.NumFields() {
+					continue
+				}
+				if isSyncPoolPtr(fa.X.Type()) && stt.Field(fa.Field).Name() == "New" {
+					hasNew[fa.X] = true
+					switch v := st.Val.(type) {
+					case *ssa.Function:
+						newOf[fa.X] = v
+					case *ssa.MakeClosure:
+						if fn, ok := v.Fn.(*ssa.Function); ok && len(v.Bindings) == 0 {
+							newOf[fa.X] = fn
+						}
+					}
+					continue
+				}
+				if !isSyncPoolPtr(stt.Field(fa.Field).Type()) {
+					continue
+				}
+				key := normKey(pt.Elem()) + "." + stt.Field(fa.Field).Name()
+				fn := newOf[st.Val]
+				if _, isAlloc := st.Val.(*ssa.Alloc); !isAlloc || fn == nil {
+					bad[key] = true
+					continue
+				}
+				if old, ok := ld.poolFieldNew[key]; ok && old != fn {
+					bad[key] = true
+					continue
+				}
+				ld.poolFieldNew[key] = fn
+			}
+		}
+		for _, af := range f.AnonFuncs {
+			visit(af)
+		}
+	}
+	for _, sp := range ld.prog.AllPackages() {
+		if !strings.HasPrefix(sp.Pkg.Path(), "github.com/pion/interceptor") {
+			continue
+		}
+		for _, m := range sp.Members {
+			if f, ok := m.(*ssa.Function); ok {
+				visit(f)
+			}
+		}
+		for _, m := range sp.Members {
+			if t, ok := m.(*ssa.Type); ok {
+				for _, tt := range []types.Type{t.Type(), types.NewPointer(t.Type())} {
+					ms := ld.prog.MethodSets.MethodSet(tt)
+					for i := 0; i < ms.Len(); i++ {
+						if f := ld.prog.MethodValue(ms.At(i)); f != nil && f.Pkg == sp {
+							visit(f)
+						}
+					}
+				}
+			}
+		}
+	}
+	for k := range bad {
+		delete(ld.poolFieldNew, k)
+	}
+	return ld.poolFieldNew
 }
